@@ -166,6 +166,7 @@ class Ctx:
             env = env_signature(e)
             if env:
                 self.env_skip(env)
+                self.tag("env-skip:%s@%s" % (env, exc_site(e)[0] or exc_site(e)[1]))
                 return False, e
             sig = exc_sig(e)
             self.violation(key, "unexpected %s: %s" % (sig["type"], sig["msg"]), exception=sig)
